@@ -67,17 +67,24 @@ Theorem C03_source_layouts :
 Proof. repeat split; reflexivity. Qed.
 Print Assumptions C03_source_layouts.
 
-(* SOURCE-TEXT tie of the two callout substructure constructors, beyond the frozen layout tables above.
-   harness/extract_readers.py translates the statements of FRUIdentity.__init__ and PCEIdentity.__init__ (src.py) into programs of
-   the reader language of Model/StreamProg.v (Gen/Readers.v, regenerated every run); for EVERY byte string, running the translated
-   program is the model's parse_fru / parse_pce: it completes exactly when the model's reader succeeds, and then the flags, size
-   and raw identity fields it has assigned, the bytes left and (FRU) the flattened size it has accumulated are the model's; a
-   DataStream assertion, or the early return of a PCE whose size field is below 24, is the model's rejection. *)
+(* SOURCE-TEXT tie of the callout constructors, beyond the frozen layout tables above.
+   harness/extract_readers.py translates the statements of FRUIdentity.__init__, PCEIdentity.__init__, MRU.__init__ and
+   Callout.__init__ (src.py) into programs of the reader language of Model/StreamProg.v (Gen/Readers.v, regenerated every run);
+   for EVERY byte string, running the translated program is the model's reader:
+   - the three substructure constructors complete exactly when parse_fru / parse_pce / parse_mru succeed, and then the flags, size,
+     raw identity fields, the (priority, id) pairs in order, the bytes left and the flattened size they leave in
+     self.flattenedSize are the model's; a DataStream assertion, or the early return of a PCE whose size field is below 24,
+     is the model's rejection;
+   - the straight part of Callout.__init__ is callout_head, and leaves 4 + location-code length in currentSize;
+   - one unrolling of the model's substructure loop parse_subs IS one evaluation of the translated loop condition and one run
+     of the translated loop body (peek at the two type bytes, call of the constructor chosen by 'ID' / 'PE' / 'MR' on the same
+     stream, currentSize advanced by the constructor's flattened size, `break` on any other type), the next round starting
+     from the currentSize and the bytes the translated body has left. *)
 Theorem C03_source_fru_reader : forall d,
   match StreamProg.run Gen.Readers.prog_fru (StreamProg.init d) with
   | StreamProg.RFall s =>
       parse_fru d = Some (ReaderSrcFacts.fru_of s, StreamProg.s_rest s) /\
-      StreamProg.int_of s (L "self.flattenedSize") = fru_flat (ReaderSrcFacts.fru_of s)
+      StreamProg.geti (StreamProg.s_ints s) (L "self.flattenedSize") = Some (Z.of_N (fru_flat (ReaderSrcFacts.fru_of s)))
   | StreamProg.RErr => parse_fru d = None
   | _ => False
   end.
@@ -85,13 +92,41 @@ Proof. exact ReaderSrcFacts.fru_prog_correct. Qed.
 Print Assumptions C03_source_fru_reader.
 Theorem C03_source_pce_reader : forall d,
   match StreamProg.run Gen.Readers.prog_pce (StreamProg.init d) with
-  | StreamProg.RFall s => parse_pce d = Some (ReaderSrcFacts.pce_of s, StreamProg.s_rest s)
+  | StreamProg.RFall s =>
+      parse_pce d = Some (ReaderSrcFacts.pce_of s, StreamProg.s_rest s) /\
+      StreamProg.geti (StreamProg.s_ints s) (L "self.flattenedSize") = Some (Z.of_N (p_size (ReaderSrcFacts.pce_of s)))
   | StreamProg.RErr => parse_pce d = None
   | StreamProg.RRet false _ => parse_pce d = None
   | _ => False
   end.
 Proof. exact ReaderSrcFacts.pce_prog_correct. Qed.
 Print Assumptions C03_source_pce_reader.
+Theorem C03_source_mru_reader : forall d,
+  match StreamProg.run Gen.Readers.prog_mru (StreamProg.init d) with
+  | StreamProg.RFall s =>
+      parse_mru d = Some (ReaderSrcFacts.mru_of s, StreamProg.s_rest s) /\
+      StreamProg.geti (StreamProg.s_ints s) (L "self.flattenedSize") = Some (Z.of_N (m_size (ReaderSrcFacts.mru_of s)))
+  | StreamProg.RErr => parse_mru d = None
+  | _ => False
+  end.
+Proof. exact ReaderSrcFacts.mru_prog_correct. Qed.
+Print Assumptions C03_source_mru_reader.
+Theorem C03_source_callout_head : forall d,
+  match StreamProg.run Gen.Readers.prog_callout_head (StreamProg.init d) with
+  | StreamProg.RFall s =>
+      callout_head d = Some ((StreamProg.int_of s (L "self.size"), StreamProg.int_of s (L "self.flags"),
+                              StreamProg.int_of s (L "self.priority"), StreamProg.mem_of s (L "self.locationCode")),
+                             StreamProg.s_rest s) /\
+      StreamProg.int_of s (L "currentSize") = (4 + N.of_nat (length (StreamProg.mem_of s (L "self.locationCode"))))%N
+  | StreamProg.RErr => callout_head d = None
+  | _ => False
+  end.
+Proof. exact ReaderSrcFacts.head_prog_correct. Qed.
+Print Assumptions C03_source_callout_head.
+Theorem C03_source_substructure_loop : forall f size cur acc d,
+  parse_subs (S f) size cur acc d = ReaderSrcFacts.subs_step f size cur acc d.
+Proof. exact ReaderSrcFacts.subs_step_correct. Qed.
+Print Assumptions C03_source_substructure_loop.
 
 (* a registry message, when one is defined for the reason code, is filled with the referenced hex words: the entry is the first
    one of the SRC's type whose reason code contains "0x" + characters 4..7 of the reference code; "SRCWordN" refers to hex word N;
